@@ -2,10 +2,10 @@
 import random
 
 NAME_ATOMS = [b"foo", b"bar", b"a", b"b", b"z", b"x9", b"9x", b"my-svc", b"a--b", b"with space", b"caf\xc3\xa9",
-              b"\xe2\x82\xac", b"r\xef\xbf\xbdq", b"_u", b"A", b"k=v", b"p%q", b"*", b"x_sum", b"x_count", b"x_bucket", b"le", b"quantile"]
+              b"\xe2\x82\xac", b"r\xef\xbf\xbdq", b"_u", b"A", b"k=v", b"p%q", b"*", b" lead", b"trail ", b"x_sum", b"x_count", b"x_bucket", b"le", b"quantile"]
 KEY_ATOMS = [b"k", b"key", b"a", b"b", b"env", b"a.b", b"a-b", b"9k", b"t\xc3\xa9", b"h\xef\xbf\xbdst", b"le", b"quantile", b"__name__",
              b"-_x", b"K_1", b"with space", b"job", b"instance"]
-VAL_ATOMS = [b"v", b"1", b"prod", b"a=b", b"with space", b"\xf0\x9f\x98\x80", b"x.y", b"-", b"=", b"9", b"v_v", b"%s"]
+VAL_ATOMS = [b"v", b"1", b"prod", b"a=b", b"with space", b"\xf0\x9f\x98\x80", b"x.y", b"-", b"=", b"9", b"v_v", b"%s", b"a b ", b" ", b"\tv"]
 TYPES = [b"c", b"g", b"ms", b"h", b"d"]
 BAD_TYPES = [b"s", b"x", b"", b"cc", b"C", b"m", b"kv"]
 NUMS = [b"1", b"0", b"2.5", b"-3", b"+4", b"100", b"1e3", b"0.001", b"-0", b"+0", b".5", b"5.", b"1_000", b"0x1p-2",
